@@ -6,6 +6,9 @@ The option table (`Row`s: Go field, kind, yaml tag, flag name, built-in default,
 argument is written) and the order of the steps inside `flagSet` (`Stage`s) are *data*, regenerated from
 the Go source by factgen (`Vflow.Gen.OptionsTbl`).  `run` interprets a stage list over the raw inputs of a
 process: environment, the file system as seen by `ioutil.ReadFile`+`yaml.Unmarshal`, `os.Args`.
+`loadCfg` locates the file by its own scan of `os.Args` (`findConfig`: the first word spelling the config
+flag in one of the four ways package `flag` accepts, `cfgWord`; before the repair of F22 only the exact
+word `-config`); package `flag` reads the command line word by word (`wordOf`, `parseArgs`).
 Core Lean only.
 
 Not modelled (documented in DESIGN.md C17): the list-valued `sflow-type-filter`; fields without a yaml
@@ -84,7 +87,7 @@ inductive Outcome (α : Type) where
   | ok (a : α)
   /-- `os.Exit(code)`: `log.Fatal` in `getEnv` (1), package flag with `ExitOnError` (2; 0 for `-h`/`-help`) -/
   | exit (code : Nat)
-  /-- runtime panic (`os.Args[i+1]` when `-config` is the last argument) -/
+  /-- runtime panic (`os.Args[i+1]` when `-config` / `--config` is the last word) -/
   | panic
 deriving Repr
 
@@ -178,11 +181,36 @@ def envFatal (tbl : List Row) (env : String → String) : Bool :=
 
 /-! ## configuration file (`loadCfg`) -/
 
-/-- `for i, flag := range os.Args { if flag == "-config" { file = os.Args[i+1]; break } }`:
+/-- `strings.HasPrefix(s, p)` together with the rest `s[len(p):]`, on character lists -/
+def dropPrefix? : List Char → List Char → Option (List Char)
+  | [], cs => some cs
+  | _ :: _, [] => none
+  | p :: ps, c :: cs => if p = c then dropPrefix? ps cs else none
+
+/-- the test `loadCfg` applies to one word of `os.Args`:
+`arg == "-config" || arg == "--config"` (`some none`: the value is the next word),
+`strings.HasPrefix(arg, "-config=") || strings.HasPrefix(arg, "--config=")` (`some (some v)`: the value is
+`arg[strings.Index(arg, "=")+1:]`, what follows the prefix), anything else `none` -/
+def cfgWord (s : String) : Option (Option String) :=
+  let cs := s.toList
+  if cs = "-config".toList ∨ cs = "--config".toList then some none
+  else match dropPrefix? "-config=".toList cs with
+    | some v => some (some (String.ofList v))
+    | none =>
+      match dropPrefix? "--config=".toList cs with
+      | some v => some (some (String.ofList v))
+      | none => none
+
+/-- the scan of `os.Args` in `loadCfg`: the first word that spells the config flag decides
+(`file = os.Args[i+1]` or the text after `=`, then `break`):
 `none` = not given, `some none` = index out of range, `some (some p)` = the path -/
 def findConfig : List String → Option (Option String)
   | [] => none
-  | a :: rest => if a = "-config" then some rest.head? else findConfig rest
+  | a :: rest =>
+    match cfgWord a with
+    | some (some v) => some (some v)
+    | some none => some rest.head?
+    | none => findConfig rest
 
 def defaultCfg : String := "/etc/vflow/vflow.conf"
 
@@ -199,12 +227,22 @@ def coerce : Kind → Val → Option Val
 def fileSource (tbl : List Row) (m : String → Option Val) : Source :=
   fun f => (rowOf tbl f).bind (fun r => if r.yaml = "" then none else (m r.yaml).bind (coerce r.kind))
 
-/-- the file `loadCfg` reads, as a source (`none`: `-config` is the last argument) -/
-def cfgSource (tbl : List Row) (inp : Inputs) : Option Source :=
-  match findConfig (inp.arg0 :: inp.args) with
+/-- the file at a path as a source (unreadable: provides nothing) -/
+def fileAt (tbl : List Row) (inp : Inputs) (p : String) : Source :=
+  match inp.readFile p with
+  | some m => fileSource tbl m
+  | none => fun _ => none
+
+/-- the file read by a `loadCfg` that scans `os.Args` with `find`, as a source
+(`none`: the value is missing, `os.Args[i+1]` is out of range) -/
+def cfgSourceWith (find : List String → Option (Option String)) (tbl : List Row) (inp : Inputs) : Option Source :=
+  match find (inp.arg0 :: inp.args) with
   | some none => none
-  | some (some p) => some (match inp.readFile p with | some m => fileSource tbl m | none => fun _ => none)
-  | none => some (match inp.readFile defaultCfg with | some m => fileSource tbl m | none => fun _ => none)
+  | some (some p) => some (fileAt tbl inp p)
+  | none => some (fileAt tbl inp defaultCfg)
+
+/-- the file `loadCfg` reads, as a source (`none`: `-config` / `--config` is the last word of `os.Args`) -/
+def cfgSource (tbl : List Row) (inp : Inputs) : Option Source := cfgSourceWith findConfig tbl inp
 
 /-! ## command line (package `flag`) -/
 
@@ -226,59 +264,80 @@ def flagValue : Kind → String → Option Val
   | .str, s => some (.str s)
   | .other _, _ => none
 
-/-- `name[=value]` after the dashes -/
-def splitEq (cs : List Char) : List Char × Option (List Char) :=
-  match cs.span (· ≠ '=') with
-  | (n, []) => (n, none)
-  | (n, _ :: v) => (n, some v)
+/-- `name[=value]` after the dashes: cut at the first `=` -/
+def splitEq : List Char → List Char × Option (List Char)
+  | [] => ([], none)
+  | c :: cs => if c = '=' then ([], some cs) else let r := splitEq cs; (c :: r.1, r.2)
 
-/-- `FlagSet.Parse` with `ExitOnError`: the assignments in order, or the exit code.  `fuel` bounds the
-number of tokens (each step consumes at least one). -/
-def parseArgs (regs : List FlagReg) : Nat → List String → Outcome (List (String × Val))
+/-- how package `flag` reads one word of the command line (`FlagSet.parseOne`) -/
+inductive Word where
+  /-- shorter than two characters or not starting with `-`: the first non-flag word ends parsing -/
+  | nonflag
+  /-- `--` ends the flags -/
+  | terminator
+  /-- `---x`, `-=x`, `--=x`: bad flag syntax -/
+  | bad
+  /-- `-name`, `--name` (`val = none`), `-name=val`, `--name=val` -/
+  | flag (name : String) (val : Option String)
+deriving DecidableEq, Repr
+
+/-- the word after its one or two dashes: `name` or `name=value` (a further `-` or a leading `=` is bad syntax) -/
+def wordOfBody (body : List Char) : Word :=
+  match body with
+  | '-' :: _ | '=' :: _ => .bad
+  | _ => .flag (String.ofList (splitEq body).1) ((splitEq body).2.map String.ofList)
+
+def wordOf (s : String) : Word :=
+  match s.toList with
+  | '-' :: c1 :: more =>
+    -- one or two dashes
+    if c1 = '-' then (if more.isEmpty then .terminator else wordOfBody more) else wordOfBody (c1 :: more)
+  | _ => .nonflag
+
+/-- `FlagSet.Parse` with `ExitOnError`: the assignments in order (target field, or `none` for the local
+`config` string, and the value), or the exit code.  `fuel` bounds the number of tokens (each step consumes
+at least one). -/
+def parseArgs (regs : List FlagReg) : Nat → List String → Outcome (List (Option String × Val))
   | 0, _ => .ok []
   | fuel+1, args =>
     match args with
     | [] => .ok []
     | s :: rest =>
-      let cs := s.toList
-      match cs with
-      | '-' :: c1 :: more =>
-        -- one or two dashes
-        let body? : Option (List Char) :=
-          if c1 = '-' then (if more.isEmpty then none else some more) else some (c1 :: more)
-        match body? with
-        | none => .ok []                       -- "--" terminates the flags
-        | some body =>
-          match body with
-          | '-' :: _ | '=' :: _ => .exit 2     -- bad flag syntax
-          | _ =>
-            let (n, v?) := splitEq body
-            let name := String.ofList n
-            match regs.find? (fun r => r.name = name) with
-            | none => if name = "help" ∨ name = "h" then .exit 0 else .exit 2
-            | some reg =>
-              let continueWith (val : Val) (rest' : List String) : Outcome (List (String × Val)) :=
-                match parseArgs regs fuel rest' with
-                | .ok l => .ok (match reg.target with | some f => (f, val) :: l | none => l)
-                | o => o
-              match reg.kind, v? with
-              | .bool, none => continueWith (.bool true) rest
-              | k, some v =>
-                match flagValue k (String.ofList v) with
-                | some val => continueWith val rest
-                | none => .exit 2
-              | k, none =>
-                match rest with
-                | [] => .exit 2                -- flag needs an argument
-                | v :: rest' =>
-                  match flagValue k v with
-                  | some val => continueWith val rest'
-                  | none => .exit 2
-      | _ => .ok []                            -- first non-flag argument ends parsing
+      match wordOf s with
+      | .nonflag => .ok []                     -- first non-flag argument ends parsing
+      | .terminator => .ok []                  -- "--" terminates the flags
+      | .bad => .exit 2                        -- bad flag syntax
+      | .flag name v? =>
+        match regs.find? (fun r => r.name = name) with
+        | none => if name = "help" ∨ name = "h" then .exit 0 else .exit 2
+        | some reg =>
+          let continueWith (val : Val) (rest' : List String) : Outcome (List (Option String × Val)) :=
+            match parseArgs regs fuel rest' with
+            | .ok l => .ok ((reg.target, val) :: l)
+            | o => o
+          match reg.kind, v? with
+          | .bool, none => continueWith (.bool true) rest
+          | k, some v =>
+            match flagValue k v with
+            | some val => continueWith val rest
+            | none => .exit 2
+          | k, none =>
+            match rest with
+            | [] => .exit 2                    -- flag needs an argument
+            | v :: rest' =>
+              match flagValue k v with
+              | some val => continueWith val rest'
+              | none => .exit 2
 
 /-- the last assignment to each field wins -/
-def lastOf (l : List (String × Val)) : Source :=
-  fun f => (l.reverse.find? (fun p => p.1 = f)).map (·.2)
+def lastOf (l : List (Option String × Val)) : Source :=
+  fun f => (l.reverse.find? (fun p => p.1 = some f)).map (·.2)
+
+/-- the texts assigned to the local `config` string, in command-line order -/
+def cfgAssigns (l : List (Option String × Val)) : List String :=
+  l.filterMap (fun p => match p with
+    | (none, .str v) => some v
+    | _ => none)
 
 /-! ## the interpreter -/
 
